@@ -123,6 +123,49 @@ theorem sortEv_map {β : Type} (f : α → β) (l : List (Int × α)) :
     rw [sortEv_cons, insertEv_map, ih]
     rfl
 
+theorem insertEv_filter_sorted (p : Int × α → Bool) (e : Int × α) (l : List (Int × α))
+    (hl : l.Pairwise (fun a b => a.1 ≤ b.1)) :
+    (insertEv e l).filter p = if p e then insertEv e (l.filter p) else l.filter p := by
+  induction l with
+  | nil => by_cases h : p e <;> simp [insertEv, h]
+  | cons a as ih =>
+    obtain ⟨ha, has⟩ := List.pairwise_cons.mp hl
+    simp only [insertEv]
+    split
+    · rename_i hle
+      -- `e` goes to the front; every kept element is not earlier than `a`
+      have hfront : ∀ m : List (Int × α), (∀ x ∈ m, e.1 ≤ x.1) → insertEv e m = e :: m := by
+        intro m hm
+        cases m with
+        | nil => rfl
+        | cons x xs => simp [insertEv, hm x List.mem_cons_self]
+      have hall : ∀ x ∈ (a :: as).filter p, e.1 ≤ x.1 := by
+        intro x hx
+        rcases List.mem_cons.mp (List.mem_filter.mp hx).1 with rfl | hx'
+        · exact hle
+        · exact le_trans hle (ha x hx')
+      by_cases hp : p e
+      · simp only [hp, if_true, List.filter_cons_of_pos]
+        rw [hfront _ hall]
+      · simp [hp]
+    · rename_i hnle
+      by_cases hpa : p a
+      · rw [List.filter_cons_of_pos (by simpa using hpa), ih has, List.filter_cons_of_pos (by simpa using hpa)]
+        by_cases hp : p e
+        · simp only [hp, if_true, insertEv, hnle, if_false]
+        · simp [hp]
+      · rw [List.filter_cons_of_neg (by simpa using hpa), ih has, List.filter_cons_of_neg (by simpa using hpa)]
+
+/-- selecting events commutes with sorting -/
+theorem sortEv_filter (p : Int × α → Bool) (l : List (Int × α)) : (sortEv l).filter p = sortEv (l.filter p) := by
+  induction l with
+  | nil => rfl
+  | cons a as ih =>
+    rw [sortEv_cons, insertEv_filter_sorted p a _ (sortEv_sorted as), ih]
+    by_cases hp : p a
+    · simp [hp, List.filter_cons_of_pos, sortEv_cons]
+    · simp [hp, List.filter_cons_of_neg]
+
 -- ------------------------------------------------------------------ delta times
 
 theorem absolute_deltas (prev : Int) (l : List (Int × α)) : absoluteFrom prev (deltasFrom prev l) = l := by
